@@ -1,12 +1,21 @@
 import GapicModel.Model.Transports
+import GapicModel.Model.Imports
+import GapicModel.Lemmas.C01Imports
 /-
 C01 — the package exposes one synchronous client per service (plus an asyncio client when gRPC is
 requested) offering exactly the requested transports, gRPC being the default when requested and REST
 otherwise.  (The clause "every emitted .py parses and the package imports" is decided by execution on
 every case of the C01 check: CPython is outside any model stated here.)
+
+Second part (`Model/Imports.lean`): the import statements BETWEEN the emitted modules of a service package name
+emitted modules only — for every option list over {grpc, rest}, every API shape, every service — provided the
+async-REST experiment is not switched on without gRPC (`AsyncNeedsGrpc`; the excluded point is a defect of the
+unchanged generator, findings/C01.json `import-error:async-rest-without-grpc`, and the hypothesis is necessary:
+`async_rest_without_grpc_breaks_imports`); the registry's classes are the ones `client.py` imports; the client names
+the package `__init__` asks for are bound by the service package; `utils.empty` is characterised line by line.
 -/
 namespace GapicModel.Props.C01
-open GapicModel GapicModel.Model.Emit GapicModel.Model.Transports
+open GapicModel GapicModel.Model.Emit GapicModel.Model.Transports GapicModel.Model.Imports GapicModel.Lemmas.C01Imports
 
 /-- supported option sets: `transport` lists only `grpc` and/or `rest` -/
 def Supported (o : Opts) : Prop := ∀ t ∈ o.transport, t = grpc ∨ t = rest
@@ -161,11 +170,190 @@ theorem one_client_per_service (o : Opts) (nm : Naming) (view : Path) (services 
   have hsv : hasVar (parseTemplate ['%', 'n', 'a', 'm', 'e', 's', 'p', 'a', 'c', 'e', '/', '%', 'n', 'a', 'm', 'e', '_', '%', 'v', 'e', 'r', 's', 'i', 'o', 'n', '/', '%', 's', 'u', 'b', '/', 's', 'e', 'r', 'v', 'i', 'c', 'e', 's', '/', '%', 's', 'e', 'r', 'v', 'i', 'c', 'e', '/', 'c', 'l', 'i', 'e', 'n', 't', '.', 'p', 'y', '.', 'j', '2']) .service = true := by decide
   simp only [renderView, hp, hsv, (async_client_iff o).2, if_true, Bool.false_eq_true, if_false]
 
+
+/-! ## Imports between the emitted modules of a service package (`Model/Imports.lean`) -/
+
+/-- the async-REST experiment is used together with gRPC (the generator emits `async_client.py` for
+`rest` + experiment alone, but that module imports `.transports.grpc_asyncio` unconditionally) -/
+def AsyncNeedsGrpc (o : Opts) : Prop := o.restAsync = true → grpc ∈ o.transport
+
+section AuxImports
+
+theorem gate_table (g r a : Bool) (m : SMod) (hm : m ≠ .gapicVersion) :
+    gateB g r a m.template = emittedT g r a true m := by
+  cases m <;> first | exact absurd rfl hm | (revert g r a; decide +kernel)
+
+/-- relative imports: one dot, never climbing out of the service directory, naming the file of their target,
+which is neither `pagers` nor `gapic_version` -/
+def relOk (m : SMod) (i : Imp) : Bool :=
+  match i.anchor with
+  | .rel n => decide (resolveRel m.rel n i.path = i.target.rel) && decide (1 ≤ n) && decide (n ≤ m.rel.length) &&
+              decide (i.target ≠ .gapicVersion) && decide (i.target ≠ .pagers) && decide (m ≠ .gapicVersion)
+  | _ => true
+
+theorem relOk_all (g r a paged : Bool) (m : SMod) : (importsB g r a paged m).all (relOk m) = true := by
+  cases g <;> cases r <;> cases a <;> cases paged <;> cases m <;> decide
+
+theorem closureB (g r a paged : Bool) (h : a = true → g = true) (m : SMod) (hm : emittedT g r a paged m = true) :
+    ∀ i ∈ importsB g r a paged m, emittedT g r a paged i.target = true := by
+  cases g <;> cases a <;>
+    first
+      | exact absurd (h rfl) (by decide)
+      | (clear h; revert hm; cases r <;> cases paged <;> cases m <;> decide)
+
+theorem gate_of_emitted (o : Opts) (paged : Bool) (m : SMod) (h1 : m ≠ .gapicVersion) (h2 : m ≠ .pagers)
+    (h : emitted o paged m = true) : serviceGate m.template o = true := by
+  cases m <;> first | exact absurd rfl h1 | exact absurd rfl h2 | exact h
+
+end AuxImports
+
+/-- **Which modules a service contributes** (all twelve, closed form; extends `transport_modules_exact` to the
+client modules and to `pagers.py`, which the empty-module rule drops iff the service has no paged method) -/
+theorem service_modules_emitted_exact (o : Opts) (hs : Supported o) (paged : Bool) (m : SMod) :
+    emitted o paged m = emittedT (o.transport.contains grpc) (o.transport.contains rest) o.restAsync paged m := by
+  cases m <;> simp only [emitted, gate_eq o hs] <;> first | rfl | (rw [gate_table _ _ _ _ (by decide)]; simp [emittedT])
+
+/-- **Every import between the modules of a service package names an emitted module** (hard or inside
+`try/except ImportError`; relative or absolute), for every supported option list with `AsyncNeedsGrpc`. -/
+theorem service_imports_resolve (o : Opts) (hs : Supported o) (ha : AsyncNeedsGrpc o) (paged : Bool) (m : SMod)
+    (hm : emitted o paged m = true) : ∀ i ∈ imports o paged m, emitted o paged i.target = true := by
+  intro i hi
+  rw [service_modules_emitted_exact o hs] at hm ⊢
+  rw [imports_eq] at hi
+  refine closureB _ _ _ _ ?_ m hm i hi
+  intro h
+  exact (contains_true_iff _ _).mpr (ha h)
+
+/-- the hypothesis `AsyncNeedsGrpc` is necessary: for EVERY supported option list with the experiment on and gRPC
+not requested, `async_client.py` is emitted, imports `.transports.grpc_asyncio` unconditionally, and that module
+is not emitted (reproduced on the real generator: corpus/C01/async_rest_without_grpc.json) -/
+theorem async_rest_without_grpc_breaks_imports (o : Opts) (hs : Supported o) (ha : o.restAsync = true)
+    (hg : grpc ∉ o.transport) (paged : Bool) :
+    emitted o paged .asyncClient = true ∧
+    relTo [sTransports, grpcAsyncio] .grpcAsyncio ∈ imports o paged .asyncClient ∧
+    emitted o paged .grpcAsyncio = false := by
+  have h1 : o.transport.contains grpc = false := (contains_false_iff _ _).mpr hg
+  rw [service_modules_emitted_exact o hs, service_modules_emitted_exact o hs, imports_eq, h1, ha]
+  cases o.transport.contains rest <;> cases paged <;> decide
+
+theorem service_imports_resolve_counterexample :
+    emitted ⟨[rest], false, true, false⟩ false .asyncClient = true ∧
+    (⟨.rel 1, [sTransports, grpcAsyncio], true, .grpcAsyncio⟩ : Imp) ∈ imports ⟨[rest], false, true, false⟩ false .asyncClient ∧
+    emitted ⟨[rest], false, true, false⟩ false .grpcAsyncio = false := by decide
+
+/-- **Relative imports name the FILE of their target, and that file is in the response**: for every API shape,
+every view (root or sub-package), every service of it, `from .transports.base import …` written in an emitted
+module resolves (Python's rule for relative imports) to a file the generator renders. -/
+theorem intra_service_imports_resolve (o : Opts) (sh : Shape) (hs : Supported o) (ha : AsyncNeedsGrpc o)
+    (view : Path) (s : Str) (hin : InView sh view s) (hne : s ≠ []) (paged : Bool) (m : SMod)
+    (hm : emitted o paged m = true) :
+    ∀ i ∈ imports o paged m, ∀ n, i.anchor = .rel n →
+      resolveRel (fileOf sh.naming view s m) n i.path = fileOf sh.naming view s i.target ∧
+      fileOf sh.naming view s i.target ∈ renders o sh Pinned.templatesChars := by
+  intro i hi n hn
+  have hem := service_imports_resolve o hs ha paged m hm i hi
+  have hok := relOk_all (o.transport.contains grpc) (o.transport.contains rest) o.restAsync paged m
+  rw [← imports_eq, List.all_eq_true] at hok
+  have hi' := hok i hi
+  simp only [relOk, hn, Bool.and_eq_true, decide_eq_true_eq] at hi'
+  obtain ⟨⟨⟨⟨⟨h1, h2⟩, h3⟩, h4⟩, h5⟩, h6⟩ := hi'
+  constructor
+  · rw [service_file_layout _ _ _ m hne h6, service_file_layout _ _ _ i.target hne h4,
+      resolveRel_prefix _ _ _ _ h3 h2, h1]
+  · exact service_module_rendered o sh view s i.target h4 hin (gate_of_emitted o paged i.target h4 h5 hem)
+
+/-- **The registry's transport classes are the ones `client.py` imports**: every registry key has its transport
+module imported by the client module -/
+theorem registry_classes_imported (o : Opts) (paged : Bool) (l : Str) (hl : l ∈ registry o) :
+    ∃ i ∈ imports o paged .client, i.target.modPath = [sTransports, l] := by
+  rw [imports_eq]
+  rcases (registry_exact o l).mp hl with ⟨hg, h | h⟩ | ⟨hr, h | ⟨ha, h⟩⟩
+  · subst h; rw [(contains_true_iff _ _).mpr hg]
+    exact ⟨relTo [sTransports, grpc] .grpc, by cases paged <;> simp [importsB], rfl⟩
+  · subst h; rw [(contains_true_iff _ _).mpr hg]
+    exact ⟨relTo [sTransports, grpcAsyncio] .grpcAsyncio, by cases paged <;> simp [importsB], rfl⟩
+  · subst h; rw [(contains_true_iff _ _).mpr hr]
+    exact ⟨relTo [sTransports, rest] .rest, by cases paged <;> simp [importsB], rfl⟩
+  · subst h; rw [(contains_true_iff _ _).mpr hr, ha]
+    exact ⟨⟨.rel 1, [sTransports, restAsyncio], false, .restAsyncio⟩, by cases paged <;> simp [importsB], rfl⟩
+
+/-- … and nothing else from `transports/` but `base` -/
+theorem client_imports_only_registered (o : Opts) (paged : Bool) : ∀ i ∈ imports o paged .client,
+    i.target = .gapicVersion ∨ i.target = .pagers ∨ i.target = .base ∨
+      ∃ l ∈ registry o, i.target.modPath = [sTransports, l] := by
+  rw [imports_eq]
+  unfold registry
+  cases o.transport.contains grpc <;> cases o.transport.contains rest <;> cases o.restAsync <;> cases paged <;> decide
+
+/-- **The client names the package `__init__` imports are bound by the service package**, and each is defined
+in an emitted module: the synchronous client always, the asyncio client exactly when gRPC is requested -/
+theorem client_names_exported (o : Opts) (hs : Supported o) (paged : Bool) (c : ClientName) (hc : c ∈ pkgInitWants o) :
+    c ∈ svcInitExports o ∧ emitted o paged c.definedIn = true ∧
+    (relTo c.definedIn.modPath c.definedIn) ∈ imports o paged .init := by
+  rw [service_modules_emitted_exact o hs, imports_eq]
+  unfold pkgInitWants at hc
+  unfold svcInitExports
+  revert hc
+  cases o.transport.contains grpc <;> cases c <;> simp [emittedT, ClientName.definedIn, importsB, SMod.modPath, relTo]
+
+theorem async_client_exported_iff_grpc (o : Opts) : ClientName.async ∈ svcInitExports o ↔ grpc ∈ o.transport := by
+  rw [← contains_true_iff]
+  unfold svcInitExports
+  cases o.transport.contains grpc <;> simp
+
+/-! ## The empty-module rule (`utils.empty`, end of `Generator._get_file`) -/
+
+/-- lines are judged independently: `empty(a + "\n" + b) = empty(a) and empty(b)` -/
+theorem empty_append_newline (a b : Str) :
+    emptyContent (a ++ '\n' :: b) = (emptyContent a && emptyContent b) := emptyScan_append_newline false a b
+
+/-- one line is "empty" iff it is blank or its first non-blank character is `#` -/
+theorem empty_line (l : Str) (hn : '\n' ∉ l) : emptyContent l = blankOrComment l := emptyScan_line l hn
+
+/-- **`empty(content)` iff every line of `content` is blank or a comment** (all texts, all lengths) -/
+theorem empty_iff_lines (ls : List Str) (hls : ∀ l ∈ ls, '\n' ∉ l) (hne : ls ≠ []) :
+    emptyContent (['\n'].intercalate ls) = ls.all blankOrComment := by
+  induction ls with
+  | nil => exact absurd rfl hne
+  | cons l rest ih =>
+    cases rest with
+    | nil => simp [List.intercalate, empty_line l (hls l (by simp))]
+    | cons l2 rest2 =>
+      have h : ['\n'].intercalate (l :: l2 :: rest2) = l ++ '\n' :: ['\n'].intercalate (l2 :: rest2) := by
+        simp [List.intercalate, List.intersperse]
+      rw [h, empty_append_newline, empty_line l (hls l (by simp)),
+        ih (fun x hx => hls x (by simp [hx])) (by simp)]
+      simp
+
+/-- `__init__.py` and `py.typed` are never dropped; any other file is kept iff it holds a statement -/
+theorem keep_rule (name content : Str) :
+    (['_', '_', 'i', 'n', 'i', 't', '_', '_', '.', 'p', 'y'].isSuffixOf name = true → keepFile name content = true) ∧
+    (['p', 'y', '.', 't', 'y', 'p', 'e', 'd'].isSuffixOf name = true → keepFile name content = true) ∧
+    (['_', '_', 'i', 'n', 'i', 't', '_', '_', '.', 'p', 'y'].isSuffixOf name = false → ['p', 'y', '.', 't', 'y', 'p', 'e', 'd'].isSuffixOf name = false →
+      keepFile name content = !emptyContent content) := by
+  unfold keepFile
+  refine ⟨fun h => by simp [h], fun h => by simp [h], fun h1 h2 => by simp [h1, h2]⟩
+
 /-! ## Non-vacuity -/
 
 example : Supported ⟨[grpc, rest], false, false, false⟩ := by
   intro t ht; simp at ht; rcases ht with h | h <;> simp [h]
 
 example : registry ⟨[rest], false, false, false⟩ = [rest] ∧ defaultTransport ⟨[rest, grpc], false, false, false⟩ = some grpc := by decide
+
+
+-- `AsyncNeedsGrpc`, `InView`, `s ≠ []`, `emitted … = true` are met by a grpc+rest library with the experiment on, a service
+-- in a sub-package, and the client module (five relative imports, one of them soft)
+example : AsyncNeedsGrpc ⟨[grpc, rest], false, true, false⟩ ∧
+    InView ⟨⟨[['a']], ['l'], ['v', '1'], ['l', '_', 'v', '1']⟩, ⟨[], [], []⟩, [⟨[['s', 'u', 'b']], [['s', 'v', 'c']], []⟩]⟩ [['s', 'u', 'b']] ['s', 'v', 'c'] ∧
+    (['s', 'v', 'c'] : Str) ≠ [] ∧ emitted ⟨[grpc, rest], false, true, false⟩ true .client = true ∧
+    (imports ⟨[grpc, rest], false, true, false⟩ true .client).length = 7 := by
+  refine ⟨fun _ => by decide, Or.inr ⟨⟨[['s', 'u', 'b']], [['s', 'v', 'c']], []⟩, by simp, rfl, by simp⟩, by decide, by decide, by decide⟩
+
+example : (['r', 'e', 's', 't'] : Str) ∈ registry ⟨[rest], false, false, false⟩ ∧ ClientName.async ∈ pkgInitWants ⟨[grpc], false, false, false⟩ := by decide
+
+-- `empty_iff_lines` on a licence header followed by one statement: not empty; without the statement: empty
+example : emptyContent (['\n'].intercalate [['#', ' ', 'x'], [], [' ', ' '], ['x', ' ', '=', ' ', '1']]) = false ∧
+    emptyContent (['\n'].intercalate [['#', ' ', 'x'], [], [' ', '\t'], [' ', '#']]) = true := by decide
 
 end GapicModel.Props.C01
